@@ -2,7 +2,9 @@
 
 Correspondence: the real `Graph.sort()` / `Function.sort()` / `TopologicalSortPass` (and
 `RecursiveGraphIterator`) vs the Lean model `IrVerif.Sort` (driver commands sort.*) on the same
-object graphs: new node order of every graph of the tree, and raised-vs-ok.
+object graphs: new node order of every graph of the tree, raised-vs-ok, the node orders observable
+after the call (also when it raised), the pre-order universe, `Graph.extend` on nodes already held vs
+`relink`, and the hypotheses `WellScoped` / `OrderedG` of the fixpoint theorems vs the oracle's reading.
 Oracle (independent of the model, on the real objects): every graph keeps exactly its own nodes;
 after a successful sort every node comes after the same-graph producers of every value used by it
 or by a node nested in it; a graph already in such an order is left as it was; a dependency cycle
@@ -13,8 +15,6 @@ from __future__ import annotations
 
 import gc
 import itertools
-import json
-import os
 
 from harness.common import Ctx, Part, lean_batch_parallel, load_corpus, pmap
 
@@ -29,6 +29,7 @@ THEOREMS = [
     "IrVerif.Sort.C12_perm",
     "IrVerif.Sort.C12_respects",
     "IrVerif.Sort.C12_cycle_iff",
+    "IrVerif.Sort.C12_cycle_lifted",
     "IrVerif.Sort.C12_cycle_no_change",
     "IrVerif.Sort.C12_fixpoint_graph",
     "IrVerif.Sort.C12_fixpoint",
@@ -38,7 +39,8 @@ ASSUMPTIONS = [
     "heapq on (negative position, node) pairs with distinct positions is modelled as extract-maximum-position; "
     "dict insertion order and dict/set lookups by object identity are modelled by creation indices",
     "the object graph is a tree: every Graph object is the value of at most one attribute and node.graph is the "
-    "graph whose node list contains the node (ownership consistency is property C01's subject)",
+    "graph whose node list contains the node (ownership consistency is property C01's subject); a Graph object "
+    "shared by two attributes is outside the model (hypothesis WF: distinct node ids / graph ids, asserted on every case)",
     "a value is represented by what Graph.sort reads from it: input_value.producer()",
     "C12_fixpoint* assume well-scoped graphs (a value is used only inside the graph of its producer or graphs "
     "nested in it), as in the property's quantifier; ill-scoped graphs are covered by perm/respects/cycle only",
@@ -147,7 +149,12 @@ def add_edges(rng, root, k, ill):
     for _ in range(k):
         u = nodes[rng.choice(ids)]
         if ill:
-            cands = [i for i in ids if nodes[i]["nout"]]
+            chain, g = set(), gof[u["i"]]
+            while g is not None:
+                chain.add(g)
+                o = owner[g]
+                g = gof[o] if o is not None else None
+            cands = [i for i in ids if nodes[i]["nout"] and gof[i] not in chain] or [i for i in ids if nodes[i]["nout"]]
         else:
             chain, g = set(), gof[u["i"]]
             while g is not None:
@@ -191,7 +198,7 @@ def permute(rng, root, how):
 
 def gen_case(rng, quick=True):
     mode = rng.choice(["dag", "dag", "dag", "free", "free", "ill"])
-    depth = rng.choice([0, 1, 1, 2, 2, 3])
+    depth = rng.choice([0, 1, 1, 2, 2, 3, 3])
     max_nodes = rng.choice([2, 3, 4, 5, 6]) if depth else rng.choice([3, 5, 8, 12])
     sg = SpecGen(rng, depth, max_nodes, rng.choice([0.25, 0.4, 0.6]), mode)
     root = sg.graph(0, [])
@@ -551,6 +558,8 @@ def do_case(case, part):
         impl_universe = [[b.nid[id(n)], b.gidmap[id(n.graph)]] for n in b.ir.traversal.RecursiveGraphIterator(root)]
     except Exception as e:  # noqa: BLE001
         impl_universe = "raised:" + type(e).__name__
+    if len({x[0] for x in pre_universe}) != len(pre_universe) or len(set(tree)) != len(tree):
+        part.disagree("encoding not well formed (duplicate node or graph id): hypothesis WF of the theorems", {"case": case})
     _roots, outcome = run_real(b, case)
     after = b.orders()
     canon = {"spec": spec, "entry": entry, "sub": case["sub"] if entry == "subgraph" else 0}
@@ -566,6 +575,7 @@ def do_case(case, part):
         outcome=outcome.split(":")[0],
         wellscoped=ws,
         preordered=all(pre_ordered.values()),
+        fixpoint_clause=("checked" if ws and outcome == "ok" and any(pre_ordered.values()) else "n/a"),
     )
     rec = {"case": case}
     sig_entry = {"graph": "Graph.sort", "function": "Function.sort", "pass": "TopologicalSortPass", "subgraph": "Graph.sort(subgraph)"}[entry]
@@ -588,8 +598,11 @@ def do_case(case, part):
                 part.fail(f"{sig_entry}:nodes-moved", "a graph does not keep exactly its own nodes", rec)
         elif before[gid] != after[gid]:
             part.fail(f"{sig_entry}:outside-changed", "a graph outside the sorted tree changed", rec)
-    for nid_, node in b.node.items():
-        pass
+    for nid_, node in b.node.items():  # node.graph still names the graph whose list holds the node
+        gobj = node.graph
+        if gobj is None or b.nid[id(node)] not in after.get(b.gidmap.get(id(gobj), -1), []):
+            part.fail(f"{sig_entry}:node-graph-mismatch", "node.graph does not name the graph that lists the node", rec)
+            break
     if outcome == "raised":
         if after != before:
             part.fail(f"{sig_entry}:cycle-changed", "ValueError raised but some graph's order changed", rec)
@@ -618,6 +631,8 @@ def do_case(case, part):
     return {
         "req": {"m": "sort.sort", "graph": req_graph},
         "ureq": {"m": "sort.universe", "graph": req_graph},
+        "hreq": {"m": "sort.hyp", "graph": req_graph},
+        "impl_hyp": {"ws": ws, "ordered": [[gid, pre_ordered[gid]] for gid in tree]},
         "impl": "raised" if outcome == "raised" else [[g, after[g]] for g in tree],
         "impl_after": [[g, after[g]] for g in tree],
         "impl_universe": impl_universe,
@@ -677,14 +692,29 @@ class time_limit:
 
 def _chunk(args):
     cases, budget = args
+    gc.collect()
     part = Part()
     out = []
+    hangs = 0
+    import time as _time
+
+    t_end = _time.time() + budget
     for case in cases:
+        if hangs >= 2:  # a non-terminating sort: reported twice already, do not spend the budget on more
+            break
+        if _time.time() > t_end:  # pathological slowdown of the real code: keep the check bounded
+            part.count("cases_skipped_time_budget", 1)
+            continue
         try:
-            with time_limit(20):
-                r = do_case(case, part)
+            try:
+                with time_limit(30):
+                    r = do_case(case, part)
+            except _Hang:  # retry once with a long limit: a loaded machine must not produce a finding
+                with time_limit(150):
+                    r = do_case(case, Part())
         except _Hang:
-            part.fail("sort:hang", "the real sort (or iterating its result) did not return within 20 s", {"case": case})
+            hangs += 1
+            part.fail("sort:hang", "the real sort (or iterating its result) did not return within 150 s", {"case": case})
             r = None
         except Exception as e:  # noqa: BLE001  harness problem on this case: report as disagreement-like info
             import traceback
@@ -696,8 +726,7 @@ def _chunk(args):
             case2 = dict(case, variant=(case["variant"] + 1 + case["sub"] % 3) % 4)
             p2 = Part()
             try:
-                gc.collect() if case["sub"] % 61 == 0 else None
-                with time_limit(20):
+                with time_limit(150):
                     r2 = do_case(case2, p2)
             except (_Hang, Exception):  # noqa: BLE001
                 r2 = None
@@ -715,17 +744,21 @@ def check_cases(ctx: Ctx, cases: list) -> None:
     import onnx_ir  # noqa: F401  (import before forking the workers)
     import onnx_ir.passes.common.topological_sort  # noqa: F401
 
-    k = max(1, (len(cases) + 15) // 16)
-    chunks = [(cases[i : i + k], ctx.pick(60, 600)) for i in range(0, len(cases), k)]
+    k = max(1, min(400, (len(cases) + 15) // 16))
+    chunks = [(cases[i : i + k], ctx.pick(120, 600)) for i in range(0, len(cases), k)]
     results = pmap(_chunk, chunks)
     recs = []
     for part, out in results:
         ctx.merge(part)
         recs += out
-    reqs = [r["req"] for r in recs] + [r["ureq"] for r in recs]
+    reqs = [r["req"] for r in recs] + [r["ureq"] for r in recs] + [r["hreq"] for r in recs]
     outs = lean_batch_parallel(reqs)
     n = len(recs)
-    for r, o, uo in zip(recs, outs[:n], outs[n:]):
+    for r, ho in zip(recs, outs[2 * n :]):
+        # the hypotheses of C12_fixpoint* as defined in Lean vs the oracle's own reading on the real objects
+        if {"ws": ho.get("ws"), "ordered": ho.get("ordered")} != r["impl_hyp"]:
+            ctx.disagree("sort.hyp: WellScoped/OrderedG (Lean) != oracle's reading", r["case"], ho, r["impl_hyp"])
+    for r, o, uo in zip(recs, outs[:n], outs[n : 2 * n]):
         model = o.get("r", o)
         if model != r["impl"]:
             ctx.disagree("sort.sort: model != Graph.sort", r["case"], model, r["impl"])
@@ -787,7 +820,7 @@ def relink_cases(ctx: Ctx) -> None:
         idx = {id(nd): i for i, nd in enumerate(nodes)}
         case = {"relink": {"n": n, "xs": xs}}
         try:
-            with time_limit(10):
+            with time_limit(120):
                 g.extend([nodes[i] for i in xs])
                 impl = [idx[id(nd)] for nd, _ in zip(g, range(4 * n + 4))]
         except _Hang:
@@ -818,7 +851,7 @@ def run(ctx: Ctx) -> None:
         if "case" in obj:
             cases.append(obj["case"])
     cases += exhaustive_small(ctx)
-    for _ in range(ctx.pick(2500, 40000)):
+    for _ in range(ctx.pick(5000, 60000)):
         cases.append(gen_case(ctx.rng, ctx.quick))
     check_cases(ctx, cases)
     relink_cases(ctx)
